@@ -2,7 +2,7 @@
    product (spgemm_den), its pre-count is exact (count_nnz_exact), its rows come out sorted
    (spgemm_rows_sorted), _dot_coo_ndarray terminates, the _dot dispatch is total. *)
 From Coq Require Import ZArith List Bool Lia Sorting.Sorted Sorting.Permutation.
-From Verif Require Import Py PyExt Shape COO GCXS G_dot NpDot Dot.
+From Verif Require Import Py PyExt Shape COO GCXS G_dot S_dot NpDot Dot.
 Import ListNotations.
 Open Scope Z_scope.
 
@@ -1030,6 +1030,34 @@ Lemma dot_dispatch_gcxs (a_argmin ca cb : bool) (rt : rtype) :
   = if ca then KerCsrCsrT else KerCsrCsr.
 Proof. destruct ca, cb, rt, a_argmin; reflexivity. Qed.
 
+(* the hand-written dispatch is what the source does: equality with the table extracted from _dot's AST *)
+Theorem dot_dispatch_matches_source_proof (a_argmin : bool) (ka kb : okind) (rt : rtype) :
+  source_dispatch a_argmin ka kb rt
+  = Some (match dot_dispatch a_argmin ka kb rt with
+          | Some (ker, o) => Some (kernel_code ker, rkind_code o)
+          | None => None end).
+Proof. destruct a_argmin, ka as [|[|]|], kb as [|[|]|], rt; vm_compute; reflexivity. Qed.
+
+(* matmul's case chain (generated): which strategy for which dimensionalities *)
+Theorem matmul_route_spec_proof (a_ndim b_ndim a_lead b_lead : Z) :
+  matmul_route a_ndim b_ndim a_lead b_lead
+  = Some (if b_ndim <=? 2 then MmDot
+          else if a_ndim <=? 2 then MmDotMoveAxis
+          else if (a_ndim <=? b_ndim) && (a_lead =? 1) then MmSqueezeA
+          else if (b_ndim <=? a_ndim) && (b_lead =? 1) then MmSqueezeB
+          else MmBatch).
+Proof.
+  unfold matmul_route, s_matmul_case. cbn.
+  destruct (Z.leb_spec b_ndim 2); cbn; [reflexivity|].
+  destruct (Z.leb_spec a_ndim 2); cbn; [reflexivity|].
+  destruct (Z.leb_spec a_ndim b_ndim); cbn.
+  - destruct (Z.eqb_spec a_lead 1); cbn; [reflexivity|].
+    destruct (Z.leb_spec b_ndim a_ndim); cbn; [|reflexivity].
+    destruct (Z.eqb_spec b_lead 1); cbn; reflexivity.
+  - destruct (Z.leb_spec b_ndim a_ndim); cbn; [|reflexivity].
+    destruct (Z.eqb_spec b_lead 1); cbn; reflexivity.
+Qed.
+
 (* ====================================================================== dot: routing (generated g_dot) *)
 Ltac split_one :=
   match goal with
@@ -1067,6 +1095,314 @@ Section Dot1d.
     - destruct (Z.eqb_spec (Z.of_nat (length a)) (Z.of_nat (length b))); [lia|reflexivity].
   Qed.
 End Dot1d.
+
+(* ====================================================================== shapes: products of shapes *)
+Lemma size_app s1 s2 : size (s1 ++ s2) = size s1 * size s2.
+Proof. induction s1 as [|d s1 IH]; simpl; [lia|]. rewrite IH. lia. Qed.
+
+Lemma shape_ok_app s1 s2 : shape_ok (s1 ++ s2) <-> shape_ok s1 /\ shape_ok s2.
+Proof. unfold shape_ok. apply Forall_app. Qed.
+
+Lemma in_range_app s1 s2 i1 i2 : in_range s1 i1 -> in_range s2 i2 -> in_range (s1 ++ s2) (i1 ++ i2).
+Proof.
+  revert i1; induction s1 as [|d s1 IH]; intros [|x i1]; simpl; try tauto.
+  intros [Hx H1] H2. split; auto.
+Qed.
+
+Lemma in_range_split s1 s2 ix : in_range (s1 ++ s2) ix ->
+  in_range s1 (firstn (length s1) ix) /\ in_range s2 (skipn (length s1) ix).
+Proof.
+  revert ix; induction s1 as [|d s1 IH]; intros ix; simpl.
+  - intros H. split; [exact I|exact H].
+  - destruct ix as [|x ix]; [tauto|]. intros [Hx H]. destruct (IH _ H). simpl. tauto.
+Qed.
+
+Lemma ravel_app s1 s2 i1 i2 : in_range s1 i1 ->
+  ravel (s1 ++ s2) (i1 ++ i2) = ravel s1 i1 * size s2 + ravel s2 i2.
+Proof.
+  revert i1; induction s1 as [|d s1 IH]; intros [|x i1]; simpl; try tauto; try (intros _; lia).
+  intros [_ H]. rewrite (IH _ H), size_app. lia.
+Qed.
+
+Lemma unravel_app s1 s2 n m : shape_ok s1 -> shape_ok s2 -> 0 <= n < size s1 -> 0 <= m < size s2 ->
+  unravel (s1 ++ s2) (n * size s2 + m) = unravel s1 n ++ unravel s2 m.
+Proof.
+  revert n; induction s1 as [|d s1 IH]; intros n H1 H2 Hn Hm; simpl in *.
+  - assert (n = 0) by lia. subst. simpl. reflexivity.
+  - inversion H1 as [|? ? Hd H1']; subst.
+    pose proof (size_nonneg _ H1') as Hs1. pose proof (size_nonneg _ H2) as Hs2.
+    assert (0 < size s1) by nia. assert (0 < size s2) by lia.
+    rewrite size_app.
+    assert (Hq : (n * size s2 + m) / (size s1 * size s2) = n / size s1).
+    { replace (size s1 * size s2) with (size s2 * size s1) by lia.
+      rewrite <- Z.div_div by lia. f_equal. rewrite Z.div_add_l by lia. rewrite (Z.div_small m) by lia. lia. }
+    assert (Hr : (n * size s2 + m) mod (size s1 * size s2) = (n mod size s1) * size s2 + m).
+    { pose proof (Z.div_mod n (size s1) ltac:(lia)) as Hdm.
+      pose proof (Z.mod_pos_bound n (size s1) ltac:(lia)) as Hb.
+      symmetry. apply (Z.mod_unique_pos _ _ (n / size s1)); [nia|]. nia. }
+    rewrite Hq, Hr. f_equal. apply IH; auto. apply Z.mod_pos_bound. lia.
+Qed.
+
+Lemma size_perm s1 s2 : Permutation s1 s2 -> size s1 = size s2.
+Proof. induction 1; simpl; try lia. Qed.
+
+Lemma all_indices_nil sh : shape_ok sh -> size sh = 0 -> all_indices sh = [].
+Proof.
+  induction sh as [|d sh IH]; simpl; intros Hok Hs; [lia|].
+  inversion Hok as [|? ? Hd Hok']; subst.
+  destruct (Z.eq_dec d 0) as [->|Hne]; [reflexivity|].
+  assert (size sh = 0) by nia. rewrite (IH Hok' H).
+  induction (zrange d); simpl; auto.
+Qed.
+
+Lemma zrange_succ n : 0 <= n -> zrange (n + 1) = zrange n ++ [n].
+Proof.
+  intros H. unfold zrange. replace (Z.to_nat (n + 1)) with (S (Z.to_nat n)) by lia.
+  rewrite seq_S, map_app. simpl. f_equal. f_equal. lia.
+Qed.
+
+Lemma seq_add_map b : forall a, seq a b = map (fun x => (a + x)%nat) (seq 0 b).
+Proof.
+  induction b as [|b IH]; intros a; simpl; [reflexivity|]. f_equal; [lia|].
+  rewrite (IH (S a)), (IH 1%nat), map_map. apply map_ext. intros x. lia.
+Qed.
+
+Lemma zrange_shift c k : 0 <= c -> 0 <= k -> zrange (c + k) = zrange c ++ map (fun j => c + j) (zrange k).
+Proof.
+  intros Hc Hk. unfold zrange. replace (Z.to_nat (c + k)) with (Z.to_nat c + Z.to_nat k)%nat by lia.
+  rewrite seq_app, map_app. f_equal. simpl. rewrite (seq_add_map (Z.to_nat k) (Z.to_nat c)), !map_map.
+  apply map_ext. intros x. lia.
+Qed.
+
+Lemma zrange_mul d S : 0 <= d -> 0 <= S ->
+  zrange (d * S) = flat_map (fun i => map (fun m => i * S + m) (zrange S)) (zrange d).
+Proof.
+  intros Hd HS. rewrite <- (Z2Nat.id d Hd). induction (Z.to_nat d) as [|n IH].
+  - simpl. reflexivity.
+  - rewrite Nat2Z.inj_succ. unfold Z.succ. rewrite zrange_succ by lia. rewrite flat_map_app. simpl.
+    rewrite app_nil_r, <- IH. replace ((Z.of_nat n + 1) * S) with (Z.of_nat n * S + S) by lia.
+    apply zrange_shift; nia.
+Qed.
+
+Lemma all_indices_unravel sh : shape_ok sh -> map (unravel sh) (zrange (size sh)) = all_indices sh.
+Proof.
+  induction sh as [|d sh IH]; intros Hok; simpl.
+  - reflexivity.
+  - inversion Hok as [|? ? Hd Hok']; subst. pose proof (size_nonneg _ Hok') as HS.
+    rewrite zrange_mul by assumption. rewrite <- (IH Hok').
+    rewrite flat_map_concat_map, concat_map, map_map, <- flat_map_concat_map.
+    apply flat_map_ext. intros i. rewrite !map_map. apply map_ext_in. intros m Hm.
+    apply zrange_In in Hm.
+    assert (Hq : (i * size sh + m) / size sh = i) by (rewrite Z.div_add_l by lia; rewrite (Z.div_small m) by lia; lia).
+    assert (Hr : (i * size sh + m) mod size sh = m) by (rewrite Z.add_comm, Z.mod_add by lia; apply Z.mod_small; lia).
+    rewrite Hq, Hr. reflexivity.
+Qed.
+
+(* ====================================================================== tensordot = NumPy's tensordot *)
+Lemma NoDup_app_intro {A} (l1 l2 : list A) :
+  NoDup l1 -> NoDup l2 -> (forall x, In x l1 -> ~ In x l2) -> NoDup (l1 ++ l2).
+Proof.
+  induction l1 as [|a l1 IH]; simpl; intros H1 H2 Hd; [exact H2|].
+  apply NoDup_cons_iff in H1. destruct H1 as [Ha H1]. constructor.
+  - intros Hin. apply in_app_or in Hin. destruct Hin as [?|Hin]; [contradiction|]. apply (Hd a); auto.
+  - apply IH; auto.
+Qed.
+
+Lemma free_axes_perm nd axes : NoDup axes -> Forall (fun x => 0 <= x < Z.of_nat nd) axes ->
+  Permutation (free_axes nd axes ++ axes) (zrange (Z.of_nat nd)).
+Proof.
+  intros Hnd Hr. unfold free_axes. apply NoDup_Permutation.
+  - apply NoDup_app_intro; [apply NoDup_filter, zrange_NoDup|exact Hnd|].
+    intros x Hx Hin. apply filter_In in Hx. destruct Hx as [_ Hx].
+    apply negb_true_iff in Hx. assert (existsb (Z.eqb x) axes = true); [|congruence].
+    apply existsb_exists. exists x. split; [exact Hin|apply Z.eqb_refl].
+  - apply zrange_NoDup.
+  - intros x. rewrite in_app_iff, filter_In, zrange_In. split.
+    + intros [[H _]|H]; [exact H|]. rewrite Forall_forall in Hr. apply Hr. exact H.
+    + intros H. destruct (existsb (Z.eqb x) axes) eqn:E.
+      * right. apply existsb_exists in E. destruct E as [y [Hy E]]. apply Z.eqb_eq in E. subst. exact Hy.
+      * left. split; [exact H|reflexivity].
+Qed.
+
+Lemma map_nthZ_zrange (sh : shape) : map (nthZ sh) (zrange (Z.of_nat (length sh))) = sh.
+Proof.
+  unfold zrange, nthZ. rewrite Nat2Z.id, map_map.
+  rewrite (map_ext _ (fun i => nth i sh 0)) by (intros i; rewrite Nat2Z.id; reflexivity).
+  induction sh as [|d sh IH]; simpl; [reflexivity|]. f_equal. rewrite <- seq_shift, map_map. exact IH.
+Qed.
+
+Lemma nthZ_nonneg sh ax : shape_ok sh -> 0 <= nthZ sh ax.
+Proof.
+  intros H. unfold nthZ. destruct (nth_in_or_default (Z.to_nat ax) sh 0) as [Hin | E]; [|rewrite E; lia].
+  unfold shape_ok in H. rewrite Forall_forall in H. apply H. exact Hin.
+Qed.
+
+Lemma shape_ok_map_nthZ sh axes : shape_ok sh -> shape_ok (map (nthZ sh) axes).
+Proof. intros H. apply Forall_forall. intros d Hd. apply in_map_iff in Hd. destruct Hd as [ax [<- _]]. apply nthZ_nonneg. exact H. Qed.
+
+Lemma td_prod_size sh axes : td_prod sh axes = size (map (nthZ sh) axes).
+Proof.
+  unfold td_prod. assert (G : forall acc, fold_left (fun acc ax => acc * nthZ sh ax) axes acc = acc * size (map (nthZ sh) axes)).
+  { induction axes as [|ax axes IH]; intros acc; simpl; [lia|]. rewrite IH. lia. }
+  rewrite G. lia.
+Qed.
+
+Lemma unravel2 M P i k : 0 < P -> 0 <= k < P -> unravel [M; P] (i * P + k) = [i; k].
+Proof.
+  intros HP Hk. simpl. rewrite Z.mul_1_r, Z.div_1_r.
+  assert (Hq : (i * P + k) / P = i) by (rewrite Z.div_add_l by lia; rewrite (Z.div_small k) by lia; lia).
+  assert (Hr : (i * P + k) mod P = k) by (rewrite Z.add_comm, Z.mod_add by lia; apply Z.mod_small; lia).
+  rewrite Hq, Hr. reflexivity.
+Qed.
+
+Section TensordotDen.
+  Variable V : Type.
+  Variable vzero : V.
+  Variable vadd vmul : V -> V -> V.
+
+  (* one pair of contracted axes: both in range (negative allowed) and of equal extent *)
+  Definition axis_pair_ok (as_ bs : shape) (x y : Z) : Prop :=
+    - Z.of_nat (length as_) <= x < Z.of_nat (length as_) /\ - Z.of_nat (length bs) <= y < Z.of_nat (length bs) /\
+    nthZ as_ (norm_axis (Z.of_nat (length as_)) x) = nthZ bs (norm_axis (Z.of_nat (length bs)) y).
+
+  Lemma td_match_ok as_ bs axes_a axes_b : Forall2 (axis_pair_ok as_ bs) axes_a axes_b ->
+    td_match as_ bs axes_a axes_b
+    = Ok (Some (map (norm_axis (Z.of_nat (length as_))) axes_a, map (norm_axis (Z.of_nat (length bs))) axes_b)).
+  Proof.
+    induction 1 as [|x y ra rb [Hx [Hy He]] Hr IH]; simpl; [reflexivity|].
+    unfold py_index.
+    destruct (Z.ltb_spec x (- Z.of_nat (length as_))); [lia|]. destruct (Z.leb_spec (Z.of_nat (length as_)) x); [lia|].
+    destruct (Z.ltb_spec y (- Z.of_nat (length bs))); [lia|]. destruct (Z.leb_spec (Z.of_nat (length bs)) y); [lia|].
+    simpl. rewrite He, Z.eqb_refl. simpl. rewrite IH. simpl. reflexivity.
+  Qed.
+
+  Lemma norm_axis_range nd x : - nd <= x < nd -> 0 <= norm_axis nd x < nd.
+  Proof. unfold norm_axis. destruct (Z.ltb_spec x 0); lia. Qed.
+
+  Theorem tensordot_den_proof (a b : arr V) (axes_a axes_b : list Z) :
+    let as_ := a_shape a in
+    let bs := a_shape b in
+    let axa := map (norm_axis (Z.of_nat (length as_))) axes_a in
+    let axb := map (norm_axis (Z.of_nat (length bs))) axes_b in
+    shape_ok as_ -> shape_ok bs -> (0 < length as_)%nat -> (0 < length bs)%nat ->
+    Forall2 (axis_pair_ok as_ bs) axes_a axes_b -> NoDup axa -> NoDup axb ->
+    exists r, tensordot_m V vzero vadd vmul a b axes_a axes_b = Ok r
+      /\ a_shape r = a_shape (np_tensordot V vzero vadd vmul a b axa axb)
+      /\ forall ix, in_range (a_shape r) ix -> a_at r ix = a_at (np_tensordot V vzero vadd vmul a b axa axb) ix.
+  Proof.
+    intros as_ bs axa axb Hoka Hokb Hnda Hndb Hpairs HNa HNb.
+    assert (Hlen : length axes_a = length axes_b) by (clear -Hpairs; induction Hpairs; simpl; congruence).
+    assert (Hra : Forall (fun x => 0 <= x < Z.of_nat (length as_)) axa).
+    { apply Forall_forall. intros x Hx. apply in_map_iff in Hx. destruct Hx as [x0 [<- Hx0]].
+      apply norm_axis_range. clear -Hpairs Hx0. induction Hpairs as [|? ? ? ? [H _] _ IH]; simpl in Hx0; [tauto|].
+      destruct Hx0 as [->|?]; auto. }
+    assert (Hrb : Forall (fun y => 0 <= y < Z.of_nat (length bs)) axb).
+    { apply Forall_forall. intros y Hy. apply in_map_iff in Hy. destruct Hy as [y0 [<- Hy0]].
+      apply norm_axis_range. clear -Hpairs Hy0. induction Hpairs as [|? ? ? ? [_ [H _]] _ IH]; simpl in Hy0; [tauto|].
+      destruct Hy0 as [->|?]; auto. }
+    assert (Hsc : map (nthZ as_) axa = map (nthZ bs) axb).
+    { unfold axa, axb. clear -Hpairs. induction Hpairs as [|? ? ? ? [_ [_ H]] _ IH]; simpl; [reflexivity|]. rewrite H, IH. reflexivity. }
+    set (fa := free_axes (length as_) axa). set (fb := free_axes (length bs) axb).
+    set (olda := map (nthZ as_) fa). set (oldb := map (nthZ bs) fb). set (sc := map (nthZ as_) axa).
+    assert (Hsa : size as_ = size olda * size sc).
+    { rewrite <- (map_nthZ_zrange as_) at 1.
+      rewrite <- (size_perm _ _ (Permutation_map (nthZ as_) (free_axes_perm (length as_) axa HNa Hra))).
+      rewrite map_app, size_app. fold fa. fold olda. fold sc. reflexivity. }
+    assert (Hsb : size bs = size sc * size oldb).
+    { rewrite <- (map_nthZ_zrange bs) at 1.
+      rewrite <- (size_perm _ _ (Permutation_map (nthZ bs) (free_axes_perm (length bs) axb HNb Hrb))).
+      rewrite map_app, size_app, <- Hsc. fold fb. fold oldb. fold sc. lia. }
+    assert (Hok_olda : shape_ok olda) by (apply shape_ok_map_nthZ; exact Hoka).
+    assert (Hok_oldb : shape_ok oldb) by (apply shape_ok_map_nthZ; exact Hokb).
+    assert (Hok_sc : shape_ok sc) by (apply shape_ok_map_nthZ; exact Hoka).
+    pose proof (size_nonneg _ Hok_sc) as Hsc0.
+    unfold tensordot_m. fold as_ bs.
+    destruct (Z.eqb_spec (Z.of_nat (length as_)) 0); [lia|]. destruct (Z.eqb_spec (Z.of_nat (length bs)) 0); [lia|].
+    simpl orb. cbv iota. rewrite Hlen, Nat.eqb_refl. simpl negb. cbv iota.
+    rewrite (td_match_ok as_ bs axes_a axes_b Hpairs). fold axa axb. simpl bind.
+    rewrite !td_prod_size. rewrite <- Hsc. fold fa fb olda oldb sc.
+    unfold td_shortcut, s_td_shortcut, s_td_newshape_a, s_td_newshape_b. simpl existsb.
+    destruct (Z.eqb_spec (size sc) 0) as [Hz|Hnz].
+    - (* contracted extent 0: the shortcut; NumPy sums over the empty index space *)
+      simpl. eexists. split; [reflexivity|]. split; [reflexivity|].
+      intros ix _. cbn [np_tensordot a_at]. unfold sum_idx. fold as_. fold sc. rewrite (all_indices_nil sc Hok_sc Hz). reflexivity.
+    - simpl. eexists. split; [reflexivity|]. split; [reflexivity|].
+      intros ix Hix. simpl in Hix.
+      assert (HM : size as_ / size sc = size olda) by (rewrite Hsa; apply Z.div_mul; lia).
+      assert (HP : size bs / size sc = size oldb) by (rewrite Hsb, Z.mul_comm; apply Z.div_mul; lia).
+      destruct (in_range_split olda oldb ix Hix) as [Hia Hib].
+      set (ia := firstn (length olda) ix) in *. set (ib := skipn (length olda) ix) in *.
+      assert (Hixs : ix = ia ++ ib) by (symmetry; apply firstn_skipn).
+      pose proof (ravel_bounds _ _ Hia) as Hbi. pose proof (ravel_bounds _ _ Hib) as Hbk.
+      (* left-hand side *)
+      cbn [np_reshape a_at a_shape arr_of_mat]. rewrite HM, HP.
+      rewrite Hixs at 1. rewrite (ravel_app olda oldb ia ib Hia).
+      rewrite (unravel2 (size olda) (size oldb) (ravel olda ia) (ravel oldb ib)) by lia.
+      unfold np_matmul2, sum_over.
+      (* right-hand side *)
+      cbn [np_tensordot a_at]. fold as_ bs fa fb sc. unfold sum_idx.
+      replace (firstn (length fa) ix) with ia by (unfold ia, olda; rewrite map_length; reflexivity).
+      replace (skipn (length fa) ix) with ib by (unfold ib, olda; rewrite map_length; reflexivity).
+      rewrite <- (all_indices_unravel sc Hok_sc), map_map. f_equal.
+      apply map_ext_in. intros j Hj. apply zrange_In in Hj. f_equal.
+      + unfold mat_of. cbn [np_reshape a_at a_shape np_transpose].
+        fold as_. rewrite map_app. fold olda sc.
+        replace (ravel [size olda; size sc] [ravel olda ia; j]) with (ravel olda ia * size sc + j) by (simpl; lia).
+        rewrite (unravel_app olda sc) by (auto; lia).
+        rewrite (unravel_ravel _ _ Hia). reflexivity.
+      + unfold mat_of. cbn [np_reshape a_at a_shape np_transpose].
+        fold bs. rewrite map_app. rewrite <- Hsc. fold oldb sc.
+        replace (ravel [size sc; size oldb] [j; ravel oldb ib]) with (j * size oldb + ravel oldb ib) by (simpl; lia).
+        rewrite (unravel_app sc oldb) by (auto; lia).
+        rewrite (unravel_ravel _ _ Hib). reflexivity.
+  Qed.
+End TensordotDen.
+
+(* ====================================================================== csc @ csc by transposition *)
+(* _dot's GCXS x GCXS branch for compressed_axes == (1,):  a @ b = (b.T @ a.T).T — the CSC triple of a
+   matrix is the CSR triple of its transpose, and the kernel is called as
+   _dot_csr_csr(out_shape[::-1], b..., a...).  ac, bc: the triples of a (m x n) and b (n x p). *)
+Theorem spgemm_csc_den_proof (V : Type) (vzero : V) (vadd vmul : V -> V -> V) :
+  comm_semiring vzero vadd vmul ->
+  forall (m n p : Z) (ac bc : csr V),
+    csr_wfb n m ac = true -> csr_wfb p n bc = true ->
+    exists r, dot_csr_csr V vzero vadd vmul p m bc ac = KOk r /\ csr_wfb p m r = true /\
+      forall i k, 0 <= k < p ->
+        csr_den V vzero r k i
+        = np_matmul2 V vzero vadd vmul n (fun i j => csr_den V vzero ac j i) (fun j k => csr_den V vzero bc k j) i k.
+Proof.
+  intros SR m n p ac bc Ha Hb.
+  destruct (spgemm_den_proof V vzero vadd vmul SR p n m bc ac Hb Ha) as [r [E Hden]].
+  destruct (spgemm_rows_sorted_proof V vzero vadd vmul p n m bc ac Hb Ha) as [r' [E' Hwf]].
+  rewrite E in E'. inversion E'; subst r'.
+  exists r. split; [exact E|split; [exact Hwf|]]. intros i k Hk. rewrite (Hden k i Hk).
+  unfold np_matmul2, sum_over. f_equal. apply map_ext. intros j. apply (sr_mul_comm _ _ _ SR).
+Qed.
+
+(* ====================================================================== _dot_csc_ndarray_sparse: two defects *)
+(* Full statements (what count_nnz_exact and spgemm_rows_sorted say of _dot_csr_csr), FALSE of
+   _dot_csc_ndarray_sparse / _csc_ndarray_count_nnz as they stand:
+     forall m n p a b, csr_wfb n m a = true ->
+       exists r, dot_csc_ndarray_sparse m n p a b = KOk r /\ csr_wfb p m r = true.
+   (a) the pre-count counts every TOUCHED row index of a column, the kernel writes only the cells
+       whose sum is non-zero: a cancellation leaves an unwritten np.empty tail in data/indices (and an
+       indptr that does not describe the written cells);
+   (b) the cells of a column are written in linked-list order, not in increasing row order. *)
+Definition exAc : csr Z := mkCSR [-3; 1; -2; 3; 1; -2] [0; 1; 0; 1; 0; 1] [0; 2; 4; 6].   (* [[-3,-2,1],[1,3,-2]] as CSC *)
+Definition exBd (j i : Z) : Z := nth (Z.to_nat (j * 3 + i)) [0; 1; 2; 0; -3; 2; 0; -3; -1] 0.
+
+Theorem csc_ndarray_count_exact_refuted_proof :
+  exists (m n p : Z) (a : csr Z) (b : Z -> Z -> Z),
+    csr_wfb n m a = true /\ dot_csc_ndarray_sparse Z 0 Z.add Z.mul Z.eqb m n p a b = KTail.
+Proof. exists 2, 3, 3, exAc, exBd. vm_compute. split; reflexivity. Qed.
+
+Definition exA2c : csr Z := mkCSR [-3; 2] [0; 2] [0; 0; 2; 2].                 (* [[0,-3,0],[0,0,0],[0,2,0]] as CSC *)
+Definition exB2d (j i : Z) : Z := nth (Z.to_nat (j * 2 + i)) [2; 2; 2; 1; 3; 3] 0.
+
+Theorem csc_ndarray_rows_sorted_refuted_proof :
+  exists (m n p : Z) (a : csr Z) (b : Z -> Z -> Z) (r : csr Z),
+    csr_wfb n m a = true /\ dot_csc_ndarray_sparse Z 0 Z.add Z.mul Z.eqb m n p a b = KOk r /\ csr_wfb p m r = false.
+Proof. exists 3, 3, 2, exA2c, exB2d. eexists. vm_compute. repeat split; reflexivity. Qed.
 
 (* ====================================================================== non-vacuity *)
 (* the hypotheses of the theorems above hold of concrete non-trivial operands over Z *)
@@ -1113,3 +1449,12 @@ Proof. repeat split; reflexivity. Qed.
 Example dot_1d_example :
   dot_1d Z 0 Z.add Z.mul [1; 2; 3] [4; 5; 6] = Ok 32 /\ dot_1d Z 0 Z.add Z.mul [1] [1; 2; 3; 4; 5] = Raise ValueError.
 Proof. split; vm_compute; reflexivity. Qed.
+
+Example tensordot_example :
+  let a := mkArr [2; 3] (fun ix => match ix with [i; j] => 3 * i + j + 1 | _ => 0 end) in
+  let b := mkArr [3; 2] (fun ix => match ix with [j; k] => 2 * j + k + 1 | _ => 0 end) in
+  Forall2 (axis_pair_ok [2; 3] [3; 2]) [-1] [0] /\
+  match tensordot_m Z 0 Z.add Z.mul a b [-1] [0] with
+  | Ok r => a_shape r = [2; 2] /\ map (a_at r) (all_indices [2; 2]) = [22; 28; 49; 64]
+  | _ => False end.
+Proof. split; [repeat constructor; vm_compute; congruence|vm_compute; split; reflexivity]. Qed.
